@@ -57,7 +57,7 @@ def _ops(keys, values, cid=None):
     ops += [('len',), ('keys',), ('values',), ('items',), ('iter',), ('popitem',), ('clear',), ('copy',), ('copy_named',), ('eq',), ('eq_none',),
             ('update', ((keys[0], values[2]), (keys[-1], values[4]))), ('update_kw',),
             ('popkeys', (keys[0], keys[1])), ('popkeys', (keys[0], keys[1]), 'dflt'),
-            ('popkeys', (keys[0], keys[1], keys[0])), ('popkeys', (keys[0], keys[0]), 'dflt')]
+            ('popkeys', (keys[0], keys[1], keys[0])), ('popkeys', (keys[0], keys[0]), 'dflt'), ('views_live',), ('eq_memory',)]
     return ops
 
 
@@ -98,7 +98,7 @@ def apply_model(m, op):
             return 'ANY-ITEM', m
         if name == 'clear':
             return None, {}
-        if name in ('copy', 'copy_named', 'eq', 'eq_none', 'setitem_bad_then_other_handle'):
+        if name in ('copy', 'copy_named', 'eq', 'eq_none', 'setitem_bad_then_other_handle', 'views_live', 'eq_memory'):
             return True, m
         if name == 'update':
             m.update(dict(op[1]))
@@ -172,6 +172,36 @@ def apply_real(a, op, ctx):
         return 'ANY-ITEM'
     if name == 'clear':
         return a.clear()
+    if name == 'views_live':
+        # keys()/values()/items() are views: like a dict's they show the contents at the time they are LOOKED AT, not at the time
+        # they were taken
+        kv, vv, iv = a.keys(), a.values(), a.items()
+        if ctx['cid'] == 'null':
+            return True
+        a['zz-view'] = 'vv'
+        try:
+            cur = AR.contents(a)
+            ok = (sorted(map(repr, kv)) == sorted(map(repr, cur.keys())) and sorted(map(repr, vv)) == sorted(map(repr, cur.values()))
+                  and sorted(map(repr, iv)) == sorted(map(repr, cur.items())) and ('zz-view' in kv) and (('zz-view', 'vv') in iv) and len(kv) == len(cur))
+        finally:
+            del a['zz-view']
+        return bool(ok)
+    if name == 'eq_memory':
+        # stores that have no location of their own (the default in-memory database of the SQL archives): every handle is its own
+        # store, and equality still compares contents
+        if ctx['cid'] != 'sqlite':
+            return True
+        import klepto.archives as KA
+        x, y = KA.sqltable_archive(cached=False), KA.sqltable_archive(cached=False)
+        x['k'] = 1
+        y['z'] = 2
+        ok = bool(x != y) and not bool(x == y)
+        c = x.copy()
+        ok = ok and bool(c == x)
+        c['q'] = 3
+        if AR.contents(c) != AR.contents(x):
+            ok = ok and bool(c != x) and not bool(c == x)
+        return bool(ok)
     if name == 'copy':
         c = a.copy()
         return (c == a) and AR.contents(c) == AR.contents(a)
@@ -185,6 +215,9 @@ def apply_real(a, op, ctx):
         if ctx['cid'] != 'null':
             c['a'] = 'only-in-copy'
             ok = ok and AR.contents(a) == before
+            # ... and equality compares contents, not names: once they differ the two are unequal
+            if AR.contents(c) != AR.contents(a):
+                ok = ok and bool(c != a) and not bool(c == a)
         return ok
     if name == 'eq':
         other = AR.open_archive(ctx['cid'], ctx['root'], 'eqpeer')
